@@ -3896,6 +3896,14 @@ func (a *Association) popPendingDataChunksToSend( //nolint:cyclop,gocognit
 				addBytes := int(commonHeaderSize) + chunkBytes
 
 				if addBytes <= int(a.MTU()) && a.tlrAllowSendLocked(budgetScaled, consumed, addBytes) {
+					// The probe uses up whatever is left of the peer's window.
+					probeLen := uint32(len(c.userData)) //nolint:gosec // G115
+					if probeLen < a.RWND() {
+						a.setRWND(a.RWND() - probeLen)
+					} else {
+						a.setRWND(0)
+					}
+
 					a.movePendingDataChunkToInflightQueue(c)
 					chunks = append(chunks, c)
 				}
